@@ -155,6 +155,41 @@ func runCatchUpKind(r *common.Run, sk *sink, caseNo int, mostlyOnDisk bool, rng 
 		} else {
 			c.Net.HealAll()
 		}
+		if rng.Intn(2) == 0 {
+			// the host of the follower loses power while it is being caught up: when its state machine
+			// leaves RecoverFromSnapshot, enters the Sync that follows it (on-disk), saves a snapshot of
+			// its own, or a few milliseconds into the repair
+			h := c.Hosts[f]
+			sites := []int32{cluster.SiteRecoverExit, cluster.SiteSaveEntry, cluster.SiteSaveExit, 0}
+			if kind == cluster.OnDisk {
+				sites = append(sites, cluster.SiteSyncAfterRecover, cluster.SiteSyncAfterRecover, cluster.SiteAnySync)
+			}
+			p := sites[rng.Intn(len(sites))]
+			site := ""
+			if p == 0 {
+				time.Sleep(time.Duration(5+rng.Intn(60)) * time.Millisecond)
+				h.Crash()
+				site = "a-few-ms-into-the-repair"
+			} else {
+				ch := h.ArmCrash(p)
+				select {
+				case <-ch:
+					h.CrashFinish()
+					site = cluster.SiteName(p)
+				case <-time.After(600 * time.Millisecond):
+					if !h.Disarm() {
+						<-ch
+						h.CrashFinish()
+						site = cluster.SiteName(p)
+					}
+				}
+			}
+			if site != "" {
+				sk.Count("power_loss_during_catch_up_at_"+site, 1)
+				time.Sleep(time.Duration(10+rng.Intn(40)) * time.Millisecond)
+				restart(c, sk, h)
+			}
+		}
 		// the follower is caught up while the writers continue
 		time.Sleep(time.Duration(150+rng.Intn(250)) * time.Millisecond)
 		if !joined && cy >= cycles/2 {
